@@ -219,22 +219,38 @@ def check_stab(tree, spec, m, before, i, mi, out, info, mem):
         info.key('C02', ('hist', h, tuple(sorted(before))))
         return
     if not ex and en:
-        # default entry of a compound state, or of (the missing children of) an orthogonal state
-        parents = set(tree.parent[s] for s in en)
-        if len(parents) == 1:
-            p = parents.pop()
-            if p in before:
-                if tree.kind[p] == 'compound' and en == [st[p]['initial']] and not (
-                        before & set(tree.children[p])):
-                    return
+        # default entries: every entered state must be, in sequence, the initial child of an active
+        # compound state without active child, or a not yet active child of an active orthogonal
+        # state; children of one orthogonal state appear in name order (C03)
+        cur = set(before)
+        ok = True
+        for s_ in en:
+            p = tree.parent.get(s_)
+            if p is None or p not in cur or s_ in cur:
+                ok = False
+                break
+            if tree.kind[p] == 'compound':
+                if (cur & set(tree.children[p])) or s_ != st[p]['initial']:
+                    ok = False
+                    break
+            elif tree.kind[p] != 'orthogonal':
+                ok = False
+                break
+            cur.add(s_)
+        if ok:
+            # an orthogonal state must get all of its missing children in the same micro step
+            for p in set(tree.parent[s_] for s_ in en):
                 if tree.kind[p] == 'orthogonal':
+                    got = [s_ for s_ in en if tree.parent[s_] == p]
                     missing = sorted(set(tree.children[p]) - before)
-                    if missing and sorted(en) == missing:
-                        if en != missing:
-                            out.append(V('C03', 'sibling-entry-order', i, micro=mi, entered=en,
-                                         parent=p))
-                        info.key('C02', ('orth', p, tuple(sorted(before))))
-                        return
+                    if sorted(got) != missing:
+                        ok = False
+                    elif got != missing:
+                        out.append(V('C03', 'sibling-entry-order', i, micro=mi, entered=en,
+                                     parent=p))
+                    info.key('C02', ('orth', p, tuple(sorted(before))))
+        if ok:
+            return
     out.append(V('C02', 'unjustified-stabilisation', i, micro=mi, exited=ex, entered=en,
                  current=sorted(before)))
 
